@@ -376,7 +376,9 @@ class Vocabulary(Mapping):
         """
         if keys is None:
             keys = self._keys
-        keys = set(keys)
+        # Only keys held by this vocabulary can be translated (looking up others
+        # would create them in a non-strict vocabulary).
+        keys = set(k for k in keys if k in self._key2idx)
 
         missing_keys = set(k for k in keys if k not in other)
 
